@@ -12,7 +12,7 @@ func checkC05(c *Ctx) {
 	p := c.P
 	c.Decided = "pacemaker shape facts without which some admissible history stalls forever: every view advance stops and restarts the view timer and forgets the last timeout; a local timeout restarts the timer on every path and, unless signing failed, always broadcasts a timeout (the stored one while the view has not changed, otherwise a fresh one that is also fed to the local collector); " +
 		"after advancing, the new view's leader creates and proposes, every other replica sends its sync info to the leader; the local timer event leads to OnLocalTimeout exactly when it is for the current view; " +
-		"a timeout quorum's certificate reaches advanceView and cannot be spoiled by other views' timeouts (imported from C08)."
+		"a timeout quorum's certificate reaches advanceView and cannot be spoiled by other views' timeouts (imported from C08). The sync info a replica reports about itself carries both its highest QC and its highest TC."
 	c.NotDec = "the statement itself: 'within a bounded number of views' and 'commits trail by exactly the chain length' quantify over schedules and timer values; no sound static bound is in reach of this technique, so the progress property proper is NOT decided here."
 	c.Expect("C05.1", 3)
 
